@@ -32,3 +32,4 @@ def run(ctx):
     ctx.run("C01.BATCHSIZE", "R-ARITH", par.c01_batchsize)
     ctx.run("C09.PER-CALL-INPUTS", "R-RESET", par.c09_per_call_inputs)
     ctx.run("C04.FLAGS", "R-ORDER", par.c04_flags)
+    ctx.run("C04.CALLID", "R-LOCK/R-ORDER", par.c04_callid)
